@@ -25,11 +25,12 @@ LEVEL_TEXT = ("Machine-checked proof (Coq, closed under the global context) over
               "a key epoch are pairwise distinct; cipher/AEAD/zlib laws are explicit premises. The model is tied to packet.py by a "
               "differential run of real Packetizer objects with toy engines against the model every run; the "
               "real primitives are exercised by an implementation-level round-trip search over all suites.")
-LEVEL_NOTE = ("Trusted: Coq kernel + vm_compute; hand-written model coq/Model/C01.v validated by the "
-              "correspondence run only; primitive laws (cipher inversion on block multiples, AEAD inversion, "
+LEVEL_NOTE = ("Trusted: Coq kernel + vm_compute; hand-written model coq/Model/C01.v, tied to the source by (a) "
+              "gen/c01.py -> coq/Gen/C01_gen.v (tables, seqno mask, IV increment, read sizes, read_all / write_all "
+              "loop shapes; C01_source_* theorems re-proved every run) and (b) the correspondence run; primitive laws (cipher inversion on block multiples, AEAD inversion, "
               "zlib tracking) are premises, tested not proved for the real libraries; re-key accounting "
               "(need_rekey, C10), keepalive and logging are outside the model.")
-TECHNIQUE = "Coq proof (reader-monad simulation + induction over op lists) + vm_compute differential correspondence + real-cipher search"
+TECHNIQUE = "fail-closed AST translator gen/c01.py (cipher/MAC/compression tables, seqno mask, IV increment, read sizes, read_all/write_all loop shapes) + Coq proof (reader-monad simulation + induction over op lists) + vm_compute differential correspondence + real-cipher search"
 
 
 # --------------------------------------------------------------------------
@@ -1322,7 +1323,8 @@ def run(ctx):
                 "(kex, auth switch-over, channel data, re-key) with recording packetizers; real suites: every cipher x "
                 "MAC x zlib on/off with random keys, fragmentation, key switch; a case is non-trivial when distinct")
     ctx.trusted += ["model coq/Model/C01.v is hand-written; tied to paramiko/packet.py by this differential run "
-                    "(vm_compute of the model's own definitions with toy primitives, no extraction)",
+                    "(vm_compute of the model's own definitions with toy primitives, no extraction) and by the "
+                    "C01_source_* theorems over coq/Gen/C01_gen.v (translator gen/c01.py, ~400 lines, fail closed)",
                     "real ciphers / HMAC / AES-GCM / zlib: laws are premises of the theorems; exercised by the "
                     "implementation-level round-trip search only",
                     "atomicity of send_message (the write lock spans compression, sequence number and write_all) and "
